@@ -235,6 +235,13 @@ func (api *HTTP) DispatchPrivateWithoutAuth(w http.ResponseWriter, r *http.Reque
 
 	switch r.Method {
 	case http.MethodGet:
+		if strings.HasPrefix(r.URL.Path, "/debug/") {
+			// pprof and expvar register on the default mux, which is
+			// deliberately not served directly (see main).
+			http.DefaultServeMux.ServeHTTP(w, r)
+			return
+		}
+
 		switch r.URL.Path {
 		case "/":
 			fallthrough
